@@ -510,9 +510,11 @@ def direct_shaped(t, d=0):
 
 
 def has_unnamed_struct(t, d=0):
-    """an unnamed struct type occurs in the type expression (not looking through named types)"""
+    """an unnamed struct type or an alias occurs in the type expression (not looking through named types)"""
     if d > 8:
         return False
+    if isinstance(t, Alias):
+        return True
     t = unalias(t)
     if isinstance(t, Struct):
         return True
@@ -1057,6 +1059,12 @@ class TypeGen:
             fields.append(Field(name, ty))
             used.append(name)
         # a struct that mentions unexported names of another package cannot be written here
+        if self_ref is not None and self.av("C15-recursive-func-struct-offsets"):
+            def _selfish(t_):
+                t_ = unalias(t_)
+                return t_ is self_ref or (isinstance(t_, (Ptr, Slice)) and t_.elem is self_ref) or (isinstance(t_, Map) and t_.elem is self_ref)
+            if any(_selfish(f.ty) for f in fields) and any(contains_func(f.ty) for f in fields if not _selfish(f.ty)):
+                fields = [f for f in fields if not _selfish(f.ty)]
         if self.av("C15-trailing-zero-size"):
             while fields and zero_size(fields[-1].ty) and not all(zero_size(f.ty) for f in fields):
                 fields.pop()
@@ -1184,8 +1192,12 @@ class TypeGen:
                 ptr = allptr or r.random() < 0.3
             n.methods.append(make_method(n, nm, ptr, self.count % 50 + i))
 
+    ALIAS_FINDINGS = ("C15-alias-struct-methods-link", "C15-alias-generic-link", "C15-alias-typelist")
+
     def add_alias(self, pkg):
         r = self.rng
+        if any(self.av(f) for f in self.ALIAS_FINDINGS):
+            return None
         t = self.rand_type(pkg, 1)
         for _ in range(10):
             if self.av("C15-alias-struct-methods-link") and isinstance(t, Struct) and any(f.embedded for f in t.fields):
@@ -1643,7 +1655,8 @@ def generate(seed, index, tier="quick", only=None, avoid=()):
         for i in range(nnamed):
             if i % 8 == 5:
                 a = tg.add_alias(p)
-                decls[p].append("type %s = %s" % (a.name, a.target.src(p)))
+                if a is not None:
+                    decls[p].append("type %s = %s" % (a.name, a.target.src(p)))
             n = tg.add_named(p)
             decls[p].append(decl_src(n) + "".join("\n\n" + method_src(n, m) for m in n.methods))
             mks[p].append(build_named(tg, vg, n, seed_for(seed, index, 100 + tg.count)))
@@ -1720,7 +1733,7 @@ def generate(seed, index, tier="quick", only=None, avoid=()):
 
 
 EXTRA_AVOID = ("C15-method-direct-addressable", "C15-map-indirect-slot-size", "C15-empty-string-to-slice", "C15-convert-float32",
-               "C15-method-order-pkgpath", "C15-alias-struct-methods-link", "C15-alias-generic-link", "C15-typearg-struct-string")
+               "C15-method-order-pkgpath", "C15-alias-struct-methods-link", "C15-alias-generic-link", "C15-typearg-struct-string", "C15-alias-typelist", "C15-recursive-func-struct-offsets")
 ALL_AVOID = ("C15-main-pkg-path", "C15-named-iface-pkgpath", "C15-structstr-tags", "C15-func-struct-tags", "C15-tag-collision",
              "C15-ptrto-extra-star", "C15-named-ptr-string", "C15-named-func-type", "C15-convert-int-narrow", "C15-chan-paren",
              "C15-funcof-func-identity", "C15-func-elem-size", "C15-ptr-func-addr", "C15-trailing-zero-size", "C15-call-pointer-args",
